@@ -839,14 +839,14 @@ func (c *Ctx) parserTables() *parserTables {
 		m, ok := t.Underlying().(*types.Map)
 		return ok && namedIs(m.Key(), "token", "Type") && isFuncReturning(m.Elem(), 1, "ast", "Expression")
 	})
-	pt.precFld = c.fieldByType("parser", "Parser", func(t types.Type) bool {
+	pt.precFld = c.fieldByTypeUsedIn("parser", "Parser", func(t types.Type) bool {
 		m, ok := t.Underlying().(*types.Map)
 		if !ok || !namedIs(m.Key(), "token", "Type") {
 			return false
 		}
 		b, ok := m.Elem().Underlying().(*types.Basic)
 		return ok && b.Kind() == types.Int
-	})
+	}, "(*parser.Parser).peekPrecedence", "(*parser.Parser).currentPrecedence")
 	if pt.stmtFld == nil || pt.exprFld == nil || pt.prefixFld == nil || pt.infixFld == nil || pt.precFld == nil {
 		pt.problems = append(pt.problems, "parser function/table fields not found by type")
 		return pt
